@@ -473,6 +473,117 @@ def grid_tie(cases):
     return {"stats": stats, "violations": violations[:5], "samples": []}
 
 
+# ---- step 1 (generate_intersection_data): model `crossingsOf` vs the vertices the real kernel puts on each segment ----
+
+def zonogon_geometry(rng, cell=None):
+    """convex centrally symmetric polygon whose sides are vectors (+-2^a, +-2^b) on a dyadic lattice, power-of-two cell
+    lengths: every f64 operation of the kernel (s, t, inserted vertex) is exact, so the tie is an equality of rationals"""
+    import math
+    cell = cell or rng.choice([(Fr(1), Fr(1)), (Fr(1, 2), Fr(1, 2)), (Fr(2), Fr(2)), (Fr(1), Fr(1, 2)), (Fr(1, 4), Fr(1, 4)), (Fr(1, 2), Fr(1))])
+    for _ in range(100):
+        k = rng.randint(2, 5)
+        gens = set()
+        while len(gens) < k:
+            a, b = rng.randint(-2, 1), rng.randint(-2, 1)
+            gens.add((Fr(2) ** a, rng.choice([1, -1]) * Fr(2) ** b))
+        gens = sorted(gens, key=lambda v: math.atan2(float(v[1]), float(v[0])))
+        if len({(v[1] / v[0]) for v in gens}) != k:
+            continue
+        p = (Fr(rng.randint(-64, 64), 16) + Fr(1, 32), Fr(rng.randint(-64, 64), 16) + Fr(3, 32))
+        pts = []
+        for v in gens + [(-v[0], -v[1]) for v in gens]:
+            pts.append(p)
+            p = (p[0] + v[0], p[1] + v[1])
+        if rng.random() < 0.3:
+            pts = pts[::-1]
+        if not gg.loops_simple([pts]):
+            continue
+        g = gg.Geometry([pts], gg.choose_poi(rng, [pts], rng.choice(["all", "some", "none"])), cell, "zonogon")
+        g.interior_left, g.poi_mode = gg.area2(pts) > 0, "mixed"
+        ox, oy, nx, ny = g.grid()
+        if g.general_position() and nx * ny <= 900:
+            return g
+    return None
+
+
+def cross_lines(g):
+    ox, oy, nx, ny = g.grid()
+    pre = f"{gg.rs(g.cell[0])} {gg.rs(g.cell[1])} {gg.rs(ox)} {gg.rs(oy)} {nx}"
+    return [f"{pre} {gg.rs(g.verts[a][0])} {gg.rs(g.verts[a][1])} {gg.rs(g.verts[b][0])} {gg.rs(g.verts[b][1])}" for a, b in g.segs]
+
+
+def parse_pts(line):
+    parts = line.split("|")
+    return [tuple(Fr(x) for x in p.split()) for p in parts[1:]]
+
+
+def cross_tie(geos, exact):
+    """model (hcmodel `gcross`: crossingsOf) vs implementation (`grisubal none` then `gcross`: the vertices of the
+    returned map inside each segment, in the order of the segment); also: consecutive ones are joined by an edge and
+    the list is what the independent Python computation of the crossings gives"""
+    import concurrent.futures as cf
+    import math
+    icases, mlines = [], []
+    for k, g in enumerate(geos):
+        cl = cross_lines(g)
+        icases.append(Case(f"cross-{g.kind}-{k}", [g.line("grisubal", "none")] + ["gcross " + x for x in cl] + ["gchain " + x for x in cl]))
+        mlines += ["gcross " + x for x in cl]
+    with cf.ThreadPoolExecutor(2) as ex:
+        fi = ex.submit(hv.run_bin, hv.HCIMPL, hv.render(icases))
+        fm = ex.submit(hv.run_bin, hv.HCMODEL, "\n".join(mlines) + "\n")
+        iout = hv.split_outputs(fi.result()[1])
+        mout = [x for x in fm.result()[1] if x]
+    stats = {"cases": len(geos), "lines": 0, "disagreements": 0, "oracle_failures": 0, "impl_outcomes": {}, "ops": {"gcross": len(mlines)},
+             "distinct_nontrivial": len(set(mout)), "segments": len(mlines), "crossings": 0, "exact": exact, "branches": {}}
+    violations = []
+    at = 0
+    for k, g in enumerate(geos):
+        li = iout[k][1] if k < len(iout) else ["<missing>"]
+        nseg = len(g.segs)
+        bad = None
+        if li[0] != "ok" or len(li) != 1 + 2 * nseg:
+            bad = f"implementation answered {li[:2]}"
+        else:
+            mine = {}
+            for kk, t, pt in g.crossings():
+                mine.setdefault(kk, []).append((t, pt))
+            ox, oy, _, _ = g.grid()
+            for j in range(nseg):
+                im, mo = li[1 + j], (mout[at + j] if at + j < len(mout) else "<missing>")
+                stats["lines"] += 1
+                pa, pb = g.verts[g.segs[j][0]], g.verts[g.segs[j][1]]
+                di = math.floor((pb[0] - ox) / g.cell[0]) - math.floor((pa[0] - ox) / g.cell[0])
+                dj = math.floor((pb[1] - oy) / g.cell[1]) - math.floor((pa[1] - oy) / g.cell[1])
+                br = "same-cell" if (di, dj) == (0, 0) else "neighbour" if abs(di) + abs(dj) == 1 else \
+                    ("row" + "+-"[di < 0]) if dj == 0 else ("column" + "+-"[dj < 0]) if di == 0 else "diagonal" + "+-"[di < 0] + "+-"[dj < 0]
+                stats["branches"][br] = stats["branches"].get(br, 0) + 1
+                ref = [pt for _, pt in sorted(mine.get(j, []))]
+                if not mo.startswith("ok") or not im.startswith("ok"):
+                    bad = f"segment {g.segs[j]}: impl {im[:80]!r} model {mo[:80]!r}"
+                    break
+                pm, pi = parse_pts(mo), parse_pts(im)
+                stats["crossings"] += len(pm)
+                if exact and im != mo:
+                    bad = f"segment {g.segs[j]}: impl {im[:200]!r} != model {mo[:200]!r} (exact family)"
+                    break
+                if len(pm) != len(pi) or any(not gg.near(a, b) for a, b in zip(pm, pi)):
+                    bad = f"segment {g.segs[j]}: impl has {len(pi)} vertices on it, model {len(pm)} crossings: {im[:160]!r} vs {mo[:160]!r}"
+                    break
+                if pm != ref:
+                    bad = f"segment {g.segs[j]}: model crossings differ from the independent computation ({len(pm)} vs {len(ref)})"
+                    break
+                if li[1 + nseg + j] != "ok true":
+                    bad = f"segment {g.segs[j]}: consecutive crossing vertices are not joined by an edge ({li[1 + nseg + j]})"
+                    break
+        at += nseg
+        if bad:
+            stats["disagreements"] += 1
+            violations.append({"kind": "correspondence", "what": f"step 1 of grisubal, case cross-{g.kind}-{k}: {bad}", "found_input": False,
+                               "sig": "gcross", "replay": {"case": f"cross-{k}", "input_lines": icases[k].lines[:6],
+                                                           "theorem_or_correspondence": "crossingsOf (Model/Grisubal.lean) vs vertices on the segment in grisubal's map"}})
+    return {"stats": stats, "violations": violations[:5], "samples": [{"case": icases[0].cid, "input": [x[:200] for x in icases[0].lines[:3]], "model_output": mout[:2]}] if icases else []}
+
+
 # ---------------------------------------------------------------------------------------------
 # run
 # ---------------------------------------------------------------------------------------------
@@ -485,6 +596,11 @@ def run(tier, seed):
     geo = geometry_cases(rng, 130 * mult)
     parts.append(("grisubal on polygons in general position (implementation, exact oracle)", gg.impl_campaign(geo, oracle)))
     parts.append(("overlapping grid: model sizing formula vs bounding box of the returned map", grid_tie(geo)))
+    zon = [z for z in (zonogon_geometry(rng) for _ in range(60 * mult)) if z]
+    parts.append(("step 1 (crossings per segment): model vs implementation, exact family (zonogons, power-of-two cells)", cross_tie(zon, True)))
+    gen = [c.meta["geo"] for c in geo if c.meta["clip"] == "none" and not c.meta["geo"].loops_crossing_nothing()
+           and not c.meta["geo"].flat_chords()[0]][:60 * mult]
+    parts.append(("step 1 (crossings per segment): model vs implementation, general polygons (tolerance 1e-9)", cross_tie(gen, False)))
     parts.append(("loops inside one grid cell", gg.impl_campaign(tiny_loop_cases(rng, 8 * mult), oracle)))
     parts.append(("directed: nested V dips through one cell side", gg.impl_campaign(chevron_cases(), oracle)))
     parts.append(("mis-oriented boundaries", gg.impl_campaign(misoriented_cases(rng, 40 * mult), oracle)))
